@@ -108,6 +108,7 @@ func (w *Worker) RunPathSeeded(entry *ssa.Function, prefix []Decision, pinned []
 	defer func() {
 		r := recover()
 		p.endThreads()
+		p.rollbackWrites()
 		for w.solver.Depth() > 0 {
 			w.solver.Pop()
 		}
